@@ -1,9 +1,9 @@
 //@ append src/crypto/src/lib.rs
 //@ native verif_oracle_random_fresh "bounded stand-in / witness finder (C07): in one process, on two threads, 96 secure_random(32) + 96 secure_random(16) draws, 48 PrivateKey::generate() and 24 key_encrypt calls with identical arguments and library-chosen randomness are pairwise distinct (ephemeral key field, whole file)"
 //@ native verif_oracle_hmac_hkdf "bounded stand-in / witness finder (C19): hmac_sha256 against RFC 2104 built over the crate's sha256 for every key length 0..=140 x 10 data lengths; hkdf_sha256 against RFC 5869 built over that reference for 6 salt x 3 info lengths x 8 output lengths incl. 8160; the Noise nonce layout for 10 counters; X25519 symmetry for 8 key pairs, base-point derivation, all-zero refusal"
-//@ native verif_oracle_key_wipe_sequences "bounded stand-in / witness finder (C20): every sequence of <= 4 operations from {zeroize, clone_from, assign a clone, clone and drop the clone} on a PayloadKey (inline storage inspected after drop_in_place) and on a PrivateKey (heap storage inspected by a counting global allocator at deallocation time), for the constructors new / try_from / clone"
+//@ native verif_oracle_key_wipe_sequences "bounded stand-in / witness finder (C20): every sequence of <= 4 operations from {zeroize, clone_from, assign a clone, clone and drop the clone} on a PayloadKey (inline storage inspected after drop_in_place) and on a PrivateKey (heap storage inspected by a counting global allocator at deallocation time), for the constructors new / try_from / clone; and both containers (boxed PayloadKey, PrivateKey) with a clone dropped by a panic unwinding"
 //@ native verif_oracle_file_level "bounded stand-in / witness finder (C01, C02, C03, C05, C06, C10, C13): key_encrypt (fixed ephemeral and payload key) and pass_encrypt against the documented file composed from the crate's own noise_encrypt / hkdf_sha256 / scrypt / AEAD: plaintexts of 0, 1, 5 bytes, reads of 1, 2 or all bytes, whole or 3-byte writes, every single read / write / flush fault position in key mode (a sample in password mode: each run is a real scrypt): result, fault side, prefix, no use of a failed sink, no panic; key_encrypt to each of the 7 small-order recipient keys and their bit-255 variants is refused with no call on the sink; key_decrypt / pass_decrypt of the documented files: plaintext and sender, wrong or mismatched recipient keys, every truncation and every single-bit flip of the 132-byte key-file header, 5 header bit flips of a password file: rejected with nothing written"
-//@ native verif_oracle_stream_memory "bounded stand-in / witness finder (C11): peak heap growth of the calling thread (counting global allocator) during key_encrypt and pass_encrypt of a 1 MiB and a 6 MiB stream delivered in reads of 65536, 8192, 5000, 100-then-8192, 70000 and 65535 bytes, and during key_decrypt of 256 KiB and 2 MiB files made of full and of 1000-byte chunks: the larger input may not need more than 256 KiB more than the smaller one"
+//@ native verif_oracle_stream_memory "bounded stand-in / witness finder (C11): peak heap growth of the calling thread (counting global allocator) during key_encrypt and pass_encrypt of a 1 MiB and a 6 MiB stream delivered in reads of 65536, 8192, 5000, 100-then-8192, 70000 and 65535 bytes, and during key_decrypt of 256 KiB and 2 MiB files made of full and of 1000-byte chunks: the larger input may not need more than 256 KiB more than the smaller one; a valid file followed by 64 MiB of foreign bytes is rejected after consuming at most 128 KiB of them with less than 1 MiB of heap"
 //@ native verif_oracle_scrypt_kat "bounded stand-in / witness finder (C18): kestrel_crypto::scrypt against OpenSSL's scrypt (python hashlib, computed at check time) on a parameter sweep N in {2,4,16,64} x r in {1,2,3,8} x p in 1..8 x dkLen in {1,31,32,33,64,65,200} with password / salt lengths in {0,1,7,64,65}"
 // Native oracles on the REAL code.  Never counted as proved; a disagreement is a concrete failing input.
 #[cfg(test)]
@@ -142,6 +142,21 @@ mod verif_o_lib {
                 drop(other); drop(src);
             }
         }
+        // keys owned by a scope that unwinds (a panic caught further up): their storage is wiped all the same
+        for which in 0..2 {
+            n += 1;
+            let before = DIRTY_FREES.load(Ordering::SeqCst);
+            let hook = std::panic::take_hook(); std::panic::set_hook(Box::new(|_| {}));
+            ARMED.store(1, Ordering::SeqCst);
+            let _ = std::panic::catch_unwind(|| {
+                if which == 0 { let _k = Box::new(PayloadKey::new(&secret_a())); let _c = Box::new((*_k).clone()); panic!("unwind"); }
+                else { let _k = PrivateKey::try_from(&secret_a()[..]).unwrap(); let _c = _k.clone(); panic!("unwind"); }
+            });
+            ARMED.store(0, Ordering::SeqCst);
+            std::panic::set_hook(hook);
+            let d = DIRTY_FREES.load(Ordering::SeqCst) - before;
+            if d > 0 { bad += 1; if first.is_none() { first = Some(format!("{} and its clone dropped while a panic unwinds: {} heap block(s) released still holding the secret", if which == 0 { "a boxed PayloadKey" } else { "a PrivateKey" }, d)); } }
+        }
         println!("VERIF_ORACLE verif_oracle_key_wipe_sequences cases={} disagreements={} first={:?}", n, bad, first);
         assert!(bad == 0, "key containers released with secret bytes intact in {} of {} cases; first: {:?}", bad, n, first);
     }
@@ -205,6 +220,28 @@ mod verif_o_lib {
             }
             if peaks[1] > peaks[0] + 262144 {
                 bad += 1; if first.is_none() { first = Some(format!("key decryption, file encrypted from reads of {} bytes: peak heap {} bytes for 256 KiB of plaintext but {} bytes for 2 MiB", name, peaks[0], peaks[1])); }
+            }
+        }
+        // a valid file followed by a long tail of foreign bytes: rejected after looking at O(1) of the tail
+        {
+            n += 1;
+            struct Tail<'a> { head: &'a [u8], pos: usize, tail_left: usize, served: usize }
+            impl<'a> std::io::Read for Tail<'a> {
+                fn read(&mut self, buf: &mut [u8]) -> std::io::Result<usize> {
+                    if self.pos < self.head.len() { let k = buf.len().min(self.head.len() - self.pos); buf[..k].copy_from_slice(&self.head[self.pos..self.pos + k]); self.pos += k; return Ok(k); }
+                    let k = buf.len().min(self.tail_left).min(1 << 16); for b in buf[..k].iter_mut() { *b = 0; } self.tail_left -= k; self.served += k; Ok(k)
+                }
+            }
+            let mut src = PatReader { left: 100000, sizes: vec![65536], i: 0, x: 1 };
+            let mut ct = CountSink { n: 0, keep: Some(Vec::new()) };
+            crate::encrypt::key_encrypt(&mut src, &mut ct, &s, &sp, &rp, None, None, None, AsymFileFormat::V1).unwrap();
+            let ctb = ct.keep.unwrap();
+            let mut rd = Tail { head: &ctb[..], pos: 0, tail_left: 64 << 20, served: 0 };
+            let mut sink = CountSink { n: 0, keep: None };
+            let mut rejected = false;
+            let pk = peak_of(|| { rejected = crate::decrypt::key_decrypt(&mut rd, &mut sink, &r, &rp, AsymFileFormat::V1).is_err(); });
+            if !rejected || rd.served > (1 << 17) || pk > (1 << 20) {
+                bad += 1; if first.is_none() { first = Some(format!("a valid two-chunk file followed by 64 MiB of foreign bytes: rejected = {}, {} bytes of the tail consumed, peak heap {} bytes", rejected, rd.served, pk)); }
             }
         }
         println!("VERIF_ORACLE verif_oracle_stream_memory cases={} disagreements={} first={:?}", n, bad, first);
